@@ -39,6 +39,16 @@ claim("C05", "other",
       "Disposition table == documented table; value lookup classified path by path (symbolic execution with struct-field memory model, map-parent helper inlined): not-present only on {ErrNotFound on the final path, no unknown value, >=2 parts, parent looked up with the same tag name/hook, parent kind Map}; unknown value substitutes exactly and first; other errors stay errors; both consumers honour not-present before anything else; quantifier absent => Op==ALL. Does not decide which lookups pointerstructure reports as ErrNotFound.",
       "§4 C05", "path-sensitive symbolic execution of the lookup + constant-table extraction + field-read census")
 
+claim("C09", "other",
+      "(i) inductive return discipline: every return of every (bool, error) function reachable from Evaluate has a nil error, a false boolean or forwards another such function's pair (loop-carried state widened). (ii) every panic-capable instruction in module code reachable from Evaluate (reflect calls with kind/validity/type preconditions, single-value assertions, index/slice, pointer dereferences, dynamic calls, foreign pointer receivers, explicit panics, divisions, map stores) is enumerated and discharged on every explored path by reflect-kind facts; comparators by agreement of the kind->coercion and kind->comparator tables plus per-call-site proof that the kind given to the table is the kind of the value compared; literal dereferences by the grammar's operator/value pairing. Does not cover panics inside dependencies/hooks or stack exhaustion; loops are explored for two iterations for panic sites.",
+      "§4 C09", "path-sensitive abstract interpretation over reflect kind sets with panic-site obligations; sibling-table agreement; inductive (bool,error) discipline")
+claim("C10", "other",
+      "Input-independent structural argument: result-shape xor at every return of CreateEvaluator/CreateFilter; acceptance == grammar.Parse's error == p.errs.err() at every return (non-nil iff recorded; recorded on no-match); every input-dependent call of (*parser).parse after the recover guard whose flag has no other writer; post-parse assertion type-safe by result-type inference of the entry rule; action assertions satisfied; no left recursion / nullable repetition (termination); creation-time code outside the parser and (imported from C09) the whole Evaluate path free of undischarged panic sites. Does not cover stack exhaustion or panics in caller-supplied options.",
+      "§4 C10", "result-shape path analysis + dominance w.r.t. deferred recover + field-write census + grammar result-type inference and termination conditions")
+claim("C17", "other",
+      "Abstract execution of Execute over element outcomes {true,false,error} with identity checks: nil filter first and identity; lists visited Index(0),Index(1),... until i<Len() is false; maps by MapIndex(MapKeys()[n]); evaluated value is Interface() of exactly the item appended/stored under its own key, only on (true,nil); result rooted at MakeSlice(input type | SliceOf(Elem) for arrays, 0, .)/MakeMap(input type); first error => (nil, err); non-containers incl. nil reach the error return without a panicking reflect call; Filter constructed only by CreateFilter. Does not decide that Evaluate itself is right.",
+      "§4 C17", "abstract execution over element outcomes + def-use identity checks + KindAI panic sites on Execute")
+
 def main():
     checks, nas = [], []
     for id in sorted(P):
